@@ -76,7 +76,14 @@ def check(model, o, feeds_list, expected=None):
         if base[0] == "ok" and compare.same_outputs(base[1], expected, rel=1e-3, abs_=1e-5) is None:
             info["expected_checked"] = True
             if got[0] != "ok":
-                verdicts.append((f"corpus_not_executable:{diff_key(model, new)}", got[1]))
+                # same decision table as above: if the other runtime runs the result and reproduces the recorded outputs, the runtimes are
+                # split on the RESULT (e.g. ORT's static shape inference rejects a [1]-shaped Range bound that it accepted while the
+                # shape was hidden behind an If) - inconclusive, not a violation
+                alt = execs.run_ref(new, feeds_list[0])
+                if alt[0] == "ok" and compare.same_outputs(alt[1], expected, rel=1e-3, abs_=1e-5) is None:
+                    info["corpus_runtime_split_on_result"] = True
+                else:
+                    verdicts.append((f"corpus_not_executable:{diff_key(model, new)}", got[1]))
             else:
                 dd = compare.same_outputs(got[1], expected, rel=1e-3, abs_=1e-5)
                 if dd:
